@@ -28,9 +28,9 @@ RULE = ("random static forests (5 leaf kinds, tock-0 DoDoers) with completion st
 LEVEL_TEXT = ("Termination cycle, Doist.done and every doer's done flag are judged on each generated run against the "
               "statement directly (from tick values) and against an independent model. Held on the runs observed.")
 LEVEL_NOTE = "trusted: vf/sched.py recorder, vf/models/cycle.py; Python 3.12 generator.close() returns None (forced closes never carry a value)"
-ASSUMPTIONS = ["static doer sets; non-real-time mode; limit > 0 or None"]
+ASSUMPTIONS = ["static doer sets (plus runtime calls that leave the set unchanged); non-real-time mode except one family that runs real=True on a scripted wall clock and judges only the limit cycle; limit > 0 or None"]
 NSHARDS = {"quick": 8, "thorough": 16}
-REQUIRE = {"float_limit_runs_judged": 1500, "float_limit_runs_with_an_end_tyme_one_ulp_from_the_limit": 150, "runs_with_membership_preserving_runtime_calls": 300, "membership_preserving_calls_made": 300, "runs_through_ado": 600, "runs_with_runtime_extend_flags_judged": 300, "stale_true_reset_seen_for_extended_doer": 300, "runs_judged": 2000, "limit_fired_with_alive": 300, "no_limit_runs": 500, "self_completed_flags_checked": 3000,
+REQUIRE = {"real_time_limit_runs_judged": 200, "float_limit_runs_judged": 1500, "float_limit_runs_with_an_end_tyme_one_ulp_from_the_limit": 150, "runs_with_membership_preserving_runtime_calls": 300, "membership_preserving_calls_made": 300, "runs_through_ado": 600, "runs_with_runtime_extend_flags_judged": 300, "stale_true_reset_seen_for_extended_doer": 300, "runs_judged": 2000, "limit_fired_with_alive": 300, "no_limit_runs": 500, "self_completed_flags_checked": 3000,
            "forced_closed_flags_checked": 800, "stale_true_reset_seen": 3000, "limit_not_multiple_of_tock": 100}
 
 
@@ -72,9 +72,52 @@ def run_float_tie(case, ctx):
                       f"done={run.doist.done!r}", trace=tr)
 
 
+def real_limit_case(rng):
+    """real=True run on a scripted wall clock: the limit is virtual tyme, so however much wall-clock time one cycle's
+    work consumes the run stops after the first cycle whose end tyme >= start + L."""
+    tock = rng.choice([1 / 16, 1 / 8, 1 / 32])
+    m = rng.randint(4, 10)
+    return {"kind": "real-limit", "tock": tock, "m": m, "start": rng.choice([0.0, 3.0]),
+            "stall_cycle": rng.randint(1, m - 1), "stall_tocks": rng.choice([2, 3, 5, 12]), "via_call": rng.random() < 0.5}
+
+
+def run_real_limit(case, ctx):
+    from hio.base import doing
+    from hio.help import timing
+    from vf.mon.fakeclock import FakeClock, Installed
+    clock = FakeClock()
+    tock, m, start = case["tock"], case["m"], case["start"]
+
+    class Staller(doing.Doer):
+        cycles = 0
+
+        def recur(self, tyme):
+            Staller.cycles += 1
+            if Staller.cycles == case["stall_cycle"]:
+                clock.work(case["stall_tocks"] * tock)      # this cycle's work takes several tocks of wall-clock time
+            return False
+
+    with Installed(clock, [timing, doing]):
+        limit = m * tock
+        doist = doing.Doist(real=True, tock=tock, doers=[Staller()], tyme=start, **({} if case["via_call"] else {"limit": limit}))
+        clock.arm()
+        try:
+            doist.do(**({"limit": limit} if case["via_call"] else {}))
+        finally:
+            clock.disarm()
+    ctx.count("real_time_limit_runs_judged")
+    if Staller.cycles != m or doist.tyme != start + m * tock or doist.done is not False:
+        ctx.violation("limit-run-wrong-end-cycle:real-time-mode",
+                      f"real=True tock={tock} start={start} L={m * tock} (= {m} cycles), cycle {case['stall_cycle']} consumed "
+                      f"{case['stall_tocks']} tocks of wall-clock time: run made {Staller.cycles} cycles, end tyme {doist.tyme}, "
+                      f"done={doist.done!r}")
+
+
 def cases(tier, seed, shard, nshards):
     rng = random.Random(f"{seed}:C05:{shard}")
     n = (4000 if tier == "quick" else 150000) // nshards
+    for _ in range(max(40, n // 40)):
+        yield real_limit_case(rng)
     for _ in range(n // 2):
         yield float_tie_case(rng)
     for _ in range(n):
@@ -210,6 +253,8 @@ def run_flags_only(case, ctx):
 def run_case(case, ctx):
     if case.get("kind") == "float-limit-tie":
         return run_float_tie(case, ctx)
+    if case.get("kind") == "real-limit":
+        return run_real_limit(case, ctx)
     prog = case["prog"]
     dyadic = prog.get("dyadic", True)
     if prog.get("runner") == "ado":
